@@ -347,6 +347,11 @@ def search(ctx):
                 x = torch.where((x.abs() - e.spline['B']).abs() < 1e-3, x * 0.37, x)
             c = R.make_context(e, 2, gen, torch.float64)
             def L():
+                # a fresh cache epoch for every evaluation: finite differences move the parameters between calls (in a training step the
+                # framework does that through train()); the gradient itself still goes through the cached path of that epoch
+                for sub in t.modules():
+                    if hasattr(sub, 'cache') and hasattr(sub.cache, 'invalidate'):
+                        sub.cache.invalidate()
                 y, ld = t(x, c) if c is not None else t(x)
                 return y.sum() + 0.7 * ld.sum()
             t.zero_grad()
